@@ -104,8 +104,10 @@ def run(ctx):
         if miss:
             bad = ('unit-partial', 'partition coefficients are stored without %s' % ', '.join(miss), k.stmt)
         else:
-            if st['self._T'].value != Form.atom('T') or src(st['self._z_mol'].stmt.value) != 'z_mol' \
-                    or src(st['self._lle_chemicals'].stmt.value) != 'lle_chemicals':
+            zt = st['self._z_mol'].value.pretty()
+            ct = st['self._lle_chemicals'].value.pretty()
+            if st['self._T'].value != Form.atom(f.params[1]) or not re.match(r'^\(self\.get_liquid_mol_data\(\)\)\[0\]\*\(self\.get_liquid_mol_data\(\)\)\[0\]\.sum\(\)\*\*-1$', zt) \
+                    or ct != '(self.get_liquid_mol_data())[2]':
                 bad = ('unit-values', 'the remembered T / composition / chemicals are not those of this call', st['self._T'].stmt)
     if bad:
         d2.fail('LLE.__call__', bad[0], bad[1], f, bad[2])
@@ -127,24 +129,37 @@ def run(ctx):
         d2.fail('LLE.solve_lle_liquid_mol', 'guess', 'remembered K used without testing that it exists', sv, sv.node)
 
     # ---- D3
-    swaps = 0
+    swaps = []
     for node in walk_no_nested(f.node):
-        if isinstance(node, ast.Assign):
+        if isinstance(node, ast.Assign) and _inside_top(node):
             tg = node.targets[0]
-            names = {x.id for x in ast.walk(tg) if isinstance(x, ast.Name)}
-            if names & {'mol_l', 'mol_L'} and _inside_top(node):
-                if isinstance(tg, ast.Tuple) and isinstance(node.value, ast.Tuple) and [src(x) for x in tg.elts] == ['mol_l', 'mol_L'] \
-                        and [src(x) for x in node.value.elts] == ['mol_L', 'mol_l']:
-                    swaps += 1
-                    d3.ok('LLE.__call__', 'relabelling is the simultaneous swap mol_l, mol_L = mol_L, mol_l', f, node)
-                else:
-                    d3.fail('LLE.__call__', 'partial-swap', 'inside the top-chemical block only one liquid is re-assigned: %s' % src(node), f, node)
-    if swaps < 2:
-        d3.fail('LLE.__call__', 'no-swap', 'top-chemical relabelling not found', f, f.node)
-    # comparison uses mass fractions of the same chemical in both phases
-    cmp_ = [x for x in walk_no_nested(f.node) if isinstance(x, ast.If) and src(x.test) == 'C_L < C_l']
-    if cmp_:
-        d3.ok('LLE.__call__', 'swap happens when the top chemical is leaner in L than in l', f, cmp_[0])
+            if isinstance(tg, ast.Tuple) and isinstance(node.value, ast.Tuple) and len(tg.elts) == 2 and len(node.value.elts) == 2 \
+                    and all(isinstance(x, ast.Name) for x in tg.elts + node.value.elts) \
+                    and [x.id for x in tg.elts] == [x.id for x in node.value.elts][::-1]:
+                swaps.append(node)
+    pair = {x.id for x in swaps[0].targets[0].elts} if swaps else set()
+    # the pair swapped must be the two liquids that are finally written to the two phase rows
+    final = [n for n in walk_no_nested(f.node) if isinstance(n, ast.Assign) and isinstance(n.targets[0], ast.Subscript)
+             and re.match(r"^imol\['[lL]'\]", src(n.targets[0]).replace('"', "'")) or False]
+    written = set()
+    for n in walk_no_nested(f.node):
+        if isinstance(n, ast.Assign) and isinstance(n.targets[0], ast.Subscript) and isinstance(n.targets[0].value, ast.Subscript) \
+                and isinstance(n.targets[0].value.slice, ast.Constant) and n.targets[0].value.slice.value in ('l', 'L'):
+            written |= {x.id for x in ast.walk(n.value) if isinstance(x, ast.Name)}
+    for node in swaps:
+        d3.ok('LLE.__call__', 'relabelling is a simultaneous swap of the two liquids (%s)' % src(node), f, node)
+    for node in walk_no_nested(f.node):
+        if isinstance(node, ast.Assign) and _inside_top(node) and node not in swaps:
+            names = {x.id for x in ast.walk(node.targets[0]) if isinstance(x, ast.Name)}
+            if names & pair:
+                d3.fail('LLE.__call__', 'partial-swap', 'inside the top-chemical block only one liquid is re-assigned: %s' % src(node), f, node)
+    if len(swaps) < 2 or not pair <= written:
+        d3.fail('LLE.__call__', 'no-swap', 'top-chemical relabelling (simultaneous swap of the two liquids that are written to l and L) not found', f, f.node)
+    # the swap is decided by comparing the top chemical's mass fraction in the two liquids
+    guards = [x for x in walk_no_nested(f.node) if isinstance(x, ast.If) and isinstance(x.test, ast.Compare) and isinstance(x.test.ops[0], ast.Lt)
+              and any(b in swaps for b in x.body)]
+    if guards:
+        d3.ok('LLE.__call__', 'swap happens when the top chemical is leaner in L than in l', f, guards[0])
 
     # ---- D4 / D5
     sle_rules(ctx, d4)
@@ -200,7 +215,7 @@ def dead_stores(ctx, d6):
                             reads = [n for n in ast.walk(b.value) if isinstance(n, ast.Subscript) and src(n) == src(x)]
                             reads += [n for n in ast.walk(b.value) if isinstance(n, ast.Name) and n.id == src(x.value)]
                             if not reads:
-                                d6.fail(f.qualname, 'dead-store-%s' % src(x).replace(' ', ''),
+                                d6.fail(f.qualname, 'dead-store-[%s]' % src(x.slice).replace(' ', ''),
                                         '%s is written (%s) and immediately overwritten (%s) without being read: one of the two targets is wrong and '
                                         'the part of the iterate meant to be updated keeps its starting value' % (src(x), src(a), src(b)), f, a)
         # count stores checked
